@@ -126,7 +126,8 @@ def extract(path: Path) -> dict[str, str]:
     return out
 
 
-OBLIGATIONS = ["g_restored", "g_same_exception", "g_cleanup_all_run", "g_exit_reason", "g_enter_rollback_reason",
+OBLIGATIONS = ["g_restored", "g_same_exception", "g_cleanup_all_run", "g_failed_enter_rolls_back", "g_exit_reason",
+               "g_enter_rollback_reason",
                "g_restored_sync", "g_same_exception_sync"]
 
 
@@ -162,6 +163,15 @@ theorem g_cleanup_all_run (φ : Faults) (body : Option Exc) (scramble : Ctx → 
   cases h2 : φ .groupExit <;> cases h3 : φ .dispExit <;> (try cases ‹Exc›) <;> (try cases ‹Exc›) <;>
     simp [Exc.isException]
 
+theorem g_failed_enter_rolls_back (φ : Faults) (body : Option Exc) (scramble : Ctx → Ctx) (m : M) (e : Exc)
+    (hin : φ .dispEnter = some e) :
+    let r := block gAenter gAexit φ body scramble m
+    let l := r.1.log.drop m.log.length
+    l.count .metricsEnter = 1 ∧ l.count .metricsExit = 1 ∧ l.count .dispExit = 0 ∧ r.2.isSome := by
+  unfold block gAenter
+  simp only [run, runAtom, hin]
+  cases e <;> cases h2 : φ .groupExit <;> simp [Exc.isException]
+
 theorem g_exit_reason (φ : Faults) (body : Option Exc) (scramble : Ctx → Ctx) (m : M)
     (hin : φ .dispEnter = none) :
     let r := (block gAenter gAexit φ body scramble m).1
@@ -193,6 +203,7 @@ end Haiway.Generated
 #print axioms Haiway.Generated.g_restored
 #print axioms Haiway.Generated.g_same_exception
 #print axioms Haiway.Generated.g_cleanup_all_run
+#print axioms Haiway.Generated.g_failed_enter_rolls_back
 #print axioms Haiway.Generated.g_exit_reason
 #print axioms Haiway.Generated.g_enter_rollback_reason
 #print axioms Haiway.Generated.g_restored_sync
